@@ -3,7 +3,7 @@
    (GroupLaws); vector length 2^k for EVERY k (the code fixes k = 8). *)
 From Coq Require Import ZArith List Arith.
 From GoIpa Require Import Model.Zq Model.FpSqrt Model.Concrete Model.Bytes Model.Alg Model.Transcript Model.Bary Model.Banderwagon Model.IPA
-  Proofs.AlgLaws Proofs.IPAProofs Proofs.BaryProofs Proofs.BaryPoly Proofs.Transfer.
+  Proofs.AlgLaws Proofs.IPAProofs Proofs.BaryProofs Proofs.BaryPoly Proofs.PrimeField Proofs.Transfer.
 Import ListNotations.
 
 Section C04.
@@ -123,3 +123,12 @@ Proof.
   exact (ipa_create_rel fo go1 go2 hashf rel H0 Ha Hm He).
 Qed.
 Print Assumptions C04_prover_transfer.
+
+(* ... and at EVERY scalar z, once the scalar-field modulus is prime (explicit premise): every z above
+   255 is then off the domain (all differences z - i are invertible) *)
+Theorem C04_opened_value_at_every_scalar : Znumtheory.prime Zq.r_mod ->
+  forall srs (q : list Zq.Fr) (z : Zq.Fr), (length q <= 256)%nat ->
+  inner FpSqrt.fro (map (fun i => peval FpSqrt.fro q (dom FpSqrt.fro i)) (seq 0 256)) (Concrete.c_compute_b srs z)
+  = peval FpSqrt.fro q z.
+Proof. exact concrete_opened_value_everywhere. Qed.
+Print Assumptions C04_opened_value_at_every_scalar.
